@@ -1179,6 +1179,14 @@ class Engine(object):
                     return C(x >= y)
             except Exception:
                 pass
+        if op in ('is', 'is not'):
+            same = None
+            if a == b and a[0] in ('opaque', 'role', 'bk', 'param', 'ev', 'closure', 'lib'):
+                same = True
+            elif a != b and set([a[0], b[0]]) <= set(['opaque', 'ev']) and ('opaque' in (a[0], b[0])):
+                same = False      # a freshly produced value is never a marker object created elsewhere
+            if same is not None:
+                return C(same if op == 'is' else not same)
         if op == 'not in':
             return ('not', ('cmp', 'in', a, b))
         if op == '!=':
